@@ -116,6 +116,17 @@ def run(prog, rep, tier):
     rep.examined(R152, PP + "|one-classifier", sample={"explicit_reaches_impl": impl in r1, "walked_reaches_impl": impl in r2})
     if impl not in r1 or impl not in r2:
         rep.violation(R152, PP + "|one-classifier", "process_path: explicit and walked files are not classified by the same function")
+    # archive members inherit the caller's flag in both places (explicit tar and tar met in a walk)
+    tars = [c for c in b.live_calls() if c.d.endswith("filepreprocessor::process_path_tar")]
+    for i, c in enumerate(tars):
+        o = b.origins(c.args[1])
+        okf = bool(o) and all(x[0] == "arg" and x[1] == 2 and not x[2] for x in o)
+        rep.examined(R152, "%s|tar#%d" % (PP, i), sample={"line": c.line, "in_walk": c.bb in L, "flag_is_callers_flag": okf})
+        if not okf:
+            rep.violation(R152, "%s|tar-flag|%s" % (PP, "walk" if c.bb in L else "explicit"), "process_path: members of a tar %s are classified with a flag other than the caller's unparseable_are_text (line %d); the same archive then expands differently when named explicitly and when found under a named directory" % (
+                "met while walking a directory" if c.bb in L else "named explicitly", c.line))
+    if len(tars) < 2:
+        raise CheckerError("process_path: %d process_path_tar calls" % len(tars))
     # main passes true for command-line paths
     mb = prog.body("s4::main")
     pc = [c for c in mb.live_calls() if c.d == PP]
